@@ -1,15 +1,133 @@
 /-
-  Y0.Props.C01 — ID estimands equal the interventional distribution (theorems about Y0.Model.Id).
+  Property C01 — ID estimands equal the true interventional distribution.
+
+  `id_sound`: whenever the model of `identify` returns an estimand `e` for `P(Y | do(X))` on a well-formed acyclic
+  mixed graph `G`, then for EVERY structural causal model `M` compatible with `G` (Y0/Spec/Scm.lean: discrete
+  variables of any cardinality, positive rational parameters, independent root latents each shared only across
+  bidirected edges) and EVERY assignment `σ` (and `σ'` for starred values, of which `e` has none)
+
+      den (M.env G) σ' e σ = M.doProb G X Y σ          -- value of the estimand on the observational joint of M
+                                                       --   =  Σ_{V ∖ (X ∪ Y)} Q[V ∖ X]   (truncated factorisation)
+
+  `id_free_irrelevant`: the value does not depend on any variable outside `X ∪ Y`.
+
+  The proof is the recursion invariant "the carried estimand denotes `Q[V_cur]` of the original model"
+  (`SInv`, `idAlg_sound` in Y0/Lemmas/IdSound*.lean) on top of the c-factor lemmas (sink)/(split)/(ratio) of
+  Y0/Lemmas/QFactor.lean.  Assumption about networkx (`TopoSound topo`): `topological_sort` returns a duplicate-free
+  list of exactly the nodes in which no later node is a parent of an earlier one; `checkedTopo_sound` shows an
+  executable sorter with that property.
 -/
-import Y0.Model.Id
+import Y0.Lemmas.IdSoundD
+import Y0.Lemmas.IdTopo
 
 namespace Y0
+open IdDsl IdAux MG
+
+/-- the initial state of the recursion satisfies the invariant: `P(V)` denotes `Q[V]` -/
+theorem sinv_initial {M : Scm} {G : MG Name} (hM : M.Compatible G) {X Y : List Name} (hq : ValidQuery G X Y)
+    {est : Expr} (hest : pJoint G.nodes = .ok est) (σ' : Val) :
+    SInv M G σ' { G := G, X := X, Y := Y, est := est } := by
+  have hctx : SCtx M G := ⟨hM, hq.wf, hq.ranked⟩
+  unfold pJoint at hest
+  split at hest
+  · cases hest
+  · rename_i hne
+    simp only [Except.ok.injEq] at hest
+    subst hest
+    refine ⟨⟨hq.wf, hq.ranked, hq.ysub, hq.yne, hq.disj, trivial⟩, Sub.refl G, ?_, ?_⟩
+    · intro σ
+      simp only [den, Option.map_none, Scm.env, List.append_nil, List.map_nil]
+      have h1 : ((sortNames G.nodes).map Var.plain).map (Var.atom σ σ') =
+          (sortNames G.nodes).map (fun n => Var.atom σ σ' (Var.plain n)) := by simp [Function.comp_def]
+      rw [h1, Scm.prAtoms_plain hM hq.wf hq.ranked]
+      simp only [Scm.prAtoms, div_one]
+      unfold Scm.obsMarg
+      have : G.nodes.filter (· ∉ sortNames G.nodes) = [] := by
+        apply List.filter_eq_nil_iff.mpr
+        intro v hv
+        simp [mem_sortNames, hv]
+      rw [this]
+      rfl
+    · intro _ S _ _ σ
+      rfl
+
+/-- **C01.** Whenever ID returns an estimand for `P(Y | do(X))` on an acyclic directed mixed graph, evaluating that
+estimand on the observational distribution of any structural causal model compatible with the graph yields exactly
+that model's interventional distribution of `Y` under `do(X)`, for every assignment of values. -/
+theorem id_sound {topo : MG Name → Except Err (List Name)} (ts : TopoSound topo) (G : MG Name) (X Y : List Name)
+    (hq : ValidQuery G X Y) (e : Expr) (h : identify topo G X Y = .ok e)
+    (M : Scm) (hM : M.Compatible G) (σ' σ : Val) :
+    den (M.env G) σ' e σ = M.doProb G X Y σ := by
+  unfold identify at h
+  obtain ⟨est, hest, h⟩ := bind_ok h
+  exact idAlg_sound ⟨hM, hq.wf, hq.ranked⟩ ts _ e h (sinv_initial hM hq hest σ') σ
+
+/-- the interventional distribution `P(y | do(x))` of a compatible model depends on the assignment only through
+`X ∪ Y` -/
+theorem doProb_dependsOnly {M : Scm} {G : MG Name} (hM : M.Compatible G) (hG : G.WF) (X Y : List Name) :
+    DependsOnly (M.doProb G X Y) (X ++ Y) := by
+  unfold Scm.doProb
+  apply sumVars_dependsOnly
+  apply Scm.Q_dependsOnly hM _ (fun v hv => (List.mem_filter.mp hv).1)
+  have key : ∀ w, w ∈ G.nodes → w ∈ G.nodes.filter (fun v => v ∉ X ∧ v ∉ Y) ++ (X ++ Y) := by
+    intro w hw
+    by_cases h : w ∈ X ∨ w ∈ Y
+    · exact List.mem_append_right _ (List.mem_append.mpr h)
+    · exact List.mem_append_left _ (List.mem_filter.mpr ⟨hw, by simpa [not_or] using h⟩)
+  intro v hv
+  exact ⟨key v (List.mem_filter.mp hv).1, fun u hu => key u (hG.di_mem _ (MG.mem_parents.mp hu)).1⟩
+
+/-- **C01, second sentence.** The value of the estimand does not depend on any variable outside `X` and `Y` that
+happens to occur free in it: two assignments that agree on `X ∪ Y` give the same value. -/
+theorem id_free_irrelevant {topo : MG Name → Except Err (List Name)} (ts : TopoSound topo) (G : MG Name)
+    (X Y : List Name) (hq : ValidQuery G X Y) (e : Expr) (h : identify topo G X Y = .ok e)
+    (M : Scm) (hM : M.Compatible G) (σ' σ τ : Val) (hστ : ∀ v ∈ X ++ Y, σ v = τ v) :
+    den (M.env G) σ' e σ = den (M.env G) σ' e τ := by
+  rw [id_sound ts G X Y hq e h M hM σ' σ, id_sound ts G X Y hq e h M hM σ' τ]
+  exact doProb_dependsOnly hM hq.wf X Y σ τ hστ
+
+/-- the same through the public wrapper `identify_outcomes` -/
+theorem identifyOutcomes_sound {topo : MG Name → Except Err (List Name)} (ts : TopoSound topo) (G : MG Name)
+    (X Y : List Name) (hq : ValidQuery G X Y) (e : Expr) (h : identifyOutcomes topo G X Y = .ok (some e))
+    (M : Scm) (hM : M.Compatible G) (σ' σ : Val) : den (M.env G) σ' e σ = M.doProb G X Y σ := by
+  unfold identifyOutcomes at h
+  split at h
+  · rename_i e' he
+    simp only [Except.ok.injEq, Option.some.injEq] at h
+    subst h
+    exact id_sound ts G X Y hq _ he M hM σ' σ
+  · cases h
+  · cases h
 
 /-- line 1 of ID returns the marginal of the carried estimand -/
 theorem step_line1 (topo : MG Name → Except Err (List Name)) (I : IdIn) (h : I.X = []) :
     step topo I = .ok (.done (IdDsl.sumSafe I.est (diff' I.G.nodes I.Y))) := by
   unfold step
-  simp only [h, List.isEmpty_nil, if_true]
-  rfl
+  simp [h]
+
+/-! ### non-vacuity -/
+
+/-- the assumption about the topological sorter is satisfied by an executable function -/
+example : TopoSound checkedTopo := checkedTopo_sound
+
+/-- a compatible positive model exists: the chain `0 → 1` with two fair binary variables and no latent -/
+def coinModel : Scm :=
+  { card := fun _ => 2, lat := [], prior := fun _ _ => 1, latOf := fun _ => [], kern := fun _ _ => 1 / 2 }
+
+example : coinModel.Compatible (MG.fromEdges [0, 1] [(0, 1)] []) := by
+  refine ⟨fun _ => by simp [coinModel], by simp [coinModel], by simp [coinModel], by simp [coinModel], by simp [coinModel],
+    by simp [coinModel], ?_, ?_, ?_, ?_⟩
+  · intro v _ σ τ _; rfl
+  · intro v _ σ; simp [coinModel]
+  · intro v _ σ
+    rw [sumVar_const _ _ _ _ (fun _ _ => rfl)]
+    simp [coinModel]
+  · intro v _ w _ _ h
+    obtain ⟨u, hu, _⟩ := h
+    simp [coinModel] at hu
+
+/-- a valid query on which ID succeeds (line 2 then line 6/1 …): here the one-step case `X = ∅` -/
+example : ValidQuery (MG.fromEdges [0, 1] [(0, 1)] []) [] [1] :=
+  ⟨MG.wf_fromEdges _ _ _, ⟨fun v => v, by decide⟩, by decide, by decide, by decide⟩
 
 end Y0
